@@ -203,6 +203,28 @@ pub fn cases(quick: bool) -> Vec<RosCase> {
                 });
             }
         }
+        // two-callback chains with a costly, heavily jittered last callback
+        for t in [6u64, 8, 12] {
+            for j1 in [0u64, 2] {
+                for j2 in [j1 + 1, t + 1, 2 * t] {
+                    for c1 in [1u64, 2] {
+                        for c2 in [1u64, 4] {
+                            for o in thin.iter().take(4).chain(std::iter::once(&(ArrSpec::Sporadic { t: 10, j: 0 }, CostSpec::Scalar(1)))) {
+                                v.push(RosCase::ChainGeneral {
+                                    supply: sup.clone(),
+                                    chain: vec![
+                                        (ArrSpec::Sporadic { t, j: j1 }, CostSpec::Scalar(c1)),
+                                        (ArrSpec::Sporadic { t, j: j2 }, CostSpec::Scalar(c2)),
+                                    ],
+                                    others: vec![o.clone()],
+                                    limit: LIMIT,
+                                });
+                            }
+                        }
+                    }
+                }
+            }
+        }
         // chains of two and three callbacks
         for (src, _) in m.iter().step_by(2) {
             for c1 in 1..=2u64 {
